@@ -106,3 +106,66 @@ func TestGovcReplayCorrectedConfig(t *testing.T) {
 `
 	return "config", "TestGovcReplayCorrectedConfig", src, true
 }
+
+func init() {
+	replayGens["config.(*svcDiscoveryClient).Subscribe"] = replaySubscribeBlocksUnderLock
+	replayGens["config.(*svcDiscoveryClient).Unsubscribe"] = replaySubscribeBlocksUnderLock
+}
+
+// more pending (un)subscriptions than the queue holds while no sender loop runs: the caller blocks
+// inside the client's lock and the reconnection path can never take it
+func replaySubscribeBlocksUnderLock(rc *ReplayCtx) (string, string, string, bool) {
+	if rc.o.Kind != "blocking-send-while-locked" {
+		return "", "", "", false
+	}
+	src := `package config
+
+import (
+	"fmt"
+	"testing"
+	"time"
+)
+
+type govcNopStream struct{}
+
+func (govcNopStream) Send(sub, unsub []string) error { return nil }
+func (govcNopStream) Recv() error                    { select {} }
+func (govcNopStream) CloseSend() error               { return nil }
+
+func TestGovcReplaySubscribeBlocksUnderLock(t *testing.T) {
+	c := newSvcDiscoveryClient("svc", nil)
+	// the stream is down (no sender loop): dependencies keep changing
+	callerDone := make(chan struct{})
+	go func() {
+		for i := 0; i < 17; i++ {
+			c.Subscribe(fmt.Sprintf("svc-%d", i))
+		}
+		for i := 0; i < 17; i++ {
+			c.Unsubscribe(fmt.Sprintf("svc-%d", i))
+		}
+		close(callerDone)
+	}()
+	time.Sleep(200 * time.Millisecond)
+	// the stream comes back: the client resubscribes (this also empties the queues)
+	resubDone := make(chan struct{})
+	stop := make(chan struct{})
+	defer close(stop)
+	go func() {
+		c.resubscribe(govcNopStream{})
+		close(resubDone)
+		c.loopSend(govcNopStream{}, stop) // what run() does next
+	}()
+	select {
+	case <-resubDone:
+	case <-time.After(2 * time.Second):
+		t.Fatalf("REPLAY-VIOLATION deadlock: the 17th pending Subscribe blocks on the 16-entry queue while holding the client's lock, and resubscribe (the only code that drains the queue once a stream is up) waits for that lock for ever")
+	}
+	select {
+	case <-callerDone:
+	case <-time.After(2 * time.Second):
+		t.Fatalf("REPLAY-VIOLATION the caller of Subscribe/Unsubscribe is still blocked 2 s after the stream came back")
+	}
+}
+`
+	return "config", "TestGovcReplaySubscribeBlocksUnderLock", src, true
+}
